@@ -396,15 +396,15 @@ def case_T(ctx, rseed):
 
 def workload(tier, seed):
     q = tier == "quick"
-    for i in range(16 if q else 160):
+    for i in range(16 if q else 800):
         yield "library", {"size": "tiny", "rseed": seed * 1000 + i, "count": 10}
-    for i in range(8 if q else 80):
+    for i in range(8 if q else 400):
         yield "library", {"size": "small", "rseed": seed * 1000 + i, "count": 5}
-    for i in range(4 if q else 32):
+    for i in range(4 if q else 100):
         yield "library", {"size": "large", "rseed": seed * 1000 + i, "count": 1}
     for i in range(8 if q else 48):
         yield "invalid", {"rseed": seed * 1000 + i, "count": 12}
-    for i in range(16 if q else 96):
+    for i in range(16 if q else 300):
         yield "tool", {"rseed": seed * 1000 + i, "count": 3}
     for i in range(2 if q else 12):
         yield "T", {"rseed": seed * 1000 + i}
